@@ -8,7 +8,7 @@
 EXTENDS ClusterAPIRepin
 
 CONSTANT MinN
-VARIABLES w, ep, ps0, ps, members, acts, pending, stage
+VARIABLES w, ep, ps0, ps, members, acts, pending, stage, mid
 
 PeerSeq(n) == [i \in 1..n |-> "p" \o ToString(i)]
 Rot(s, k)  == [i \in 1..Len(s) |-> s[((i + k - 1) % Len(s)) + 1]]
@@ -16,8 +16,8 @@ SubSeqs(s, lo, hi) == {x \in UNION {[1..k -> Range(s)] : k \in lo..hi} :
                           \A i, j \in DOMAIN x : i < j => Pos(s, x[i]) < Pos(s, x[j])}   \* ordered subsets
 
 Vals == <<"v0", "v1", "v2", "v1", "v0">>
-Worlds == UNION {
-    {[peers |-> PeerSeq(n), followers |-> fo, norepin |-> nr, strat |-> "asc",
+AllWorlds == UNION {
+    {[peers |-> PeerSeq(n), followers |-> fo, norepin |-> nr, strat |-> "asc", getfail |-> gf,
       ms |-> [p \in Range(PeerSeq(n)) |-> IF p \in hp[1] THEN "bad" ELSE IF p \in hp[2] THEN "nonnum" ELSE Vals[Pos(PeerSeq(n), p)]],
       rank |-> [c \in {"c1", "c2", "c3", "m1", "d1", "s1"} |->
                     CASE c = "c1" -> Rot(PeerSeq(n), k1) [] c = "c2" -> Rot(PeerSeq(n), k1 + k2) [] OTHER -> Rot(PeerSeq(n), k1 + 1)],
@@ -26,10 +26,16 @@ Worlds == UNION {
         \* health patterns <<bad, nonnum>>: all rankable; one peer without a valid metric; one peer / every peer but
         \* p1 with a valid but non-numeric (unrankable) metric
         hp \in {<<{}, {}>>, <<{PeerSeq(n)[2]}, {}>>, <<{PeerSeq(n)[n]}, {}>>, <<{}, {PeerSeq(n)[n]}>>,
-                <<{}, Range(PeerSeq(n)) \ {"p1"}>>}, k1 \in 0..(n - 1), k2 \in {0, 1}} : n \in MinN..NPEERS}
+                <<{}, Range(PeerSeq(n)) \ {"p1"}>>},
+        \* State.Get of c1 / c2 failing with a read error (only combined with the plain worlds)
+        gf \in {<<>>, <<"c1">>, <<"c2">>}, k1 \in 0..(n - 1), k2 \in {0, 1}} : n \in MinN..NPEERS}
+Worlds == {x \in AllWorlds : x.getfail = <<>> \/ (x.followers = <<>> /\ ~x.norepin /\ \A p \in DOMAIN x.ms : Numeric(x.ms[p]))}
 
 Episodes(x) == {[kind |-> "fail", failed |-> f, at |-> ""] : f \in Members(x)}
                \cup {[kind |-> "remove", failed |-> t, at |-> p] : t \in Members(x), p \in Members(x)}
+               \cup {e \in {[kind |-> "remove2", failed |-> t, failed2 |-> u, at |-> p] :
+                                t \in Members(x), u \in Members(x), p \in Members(x)} :
+                        e.failed # e.failed2 /\ e.at \notin {e.failed, e.failed2}}
                \cup {[kind |-> "sync", failed |-> "", at |-> ""], [kind |-> "noise", failed |-> PeerSeq(2)[2], at |-> ""]}
 
 Rich(c, f, al, up, ex) ==
@@ -52,17 +58,31 @@ Pinsets(x) == {({a} \cup B \cup G) :
 Init == /\ stage = "world"
         /\ w \in Worlds
         /\ ep = [kind |-> "none"] /\ ps0 = {} /\ ps = {} /\ members = {} /\ acts = <<>> /\ pending = {}
+        /\ mid = [ps |-> {}, n |-> 0]
 Tag(log, p) == [i \in DOMAIN log |-> [by |-> p, kind |-> log[i][1], cid |-> log[i][2]]]
 
 Setup == /\ stage = "world" /\ stage' = "run"
          /\ ep' \in Episodes(w)
          /\ ps0' \in Pinsets(w)
          /\ ps' = ps0' /\ members' = Members(w) /\ acts' = <<>>
-         /\ pending' = CASE ep'.kind = "remove" -> {ep'.at}
+         /\ mid' = mid
+         /\ pending' = CASE ep'.kind \in {"remove", "remove2"} -> {ep'.at}
                          [] ep'.kind = "sync" -> Members(w)
                          [] OTHER -> Members(w) \ {ep'.failed}
          /\ UNCHANGED w
-Deliver == /\ stage = "run" /\ pending # {}
+\* two removals in quick succession, both at ep.at
+First2 == /\ stage = "run" /\ pending # {} /\ ep.kind = "remove2" /\ ep.failed \in members
+          /\ \E r \in VacateOutcomes(w, ep.at, ep.failed, ps) :
+                /\ ps' = r.ps /\ acts' = acts \o Tag(r.log, ep.at)
+                /\ mid' = [ps |-> r.ps, n |-> Len(acts')]
+          /\ members' = members \ {ep.failed}
+          /\ UNCHANGED <<w, ep, ps0, stage, pending>>
+Second2 == /\ stage = "run" /\ pending # {} /\ ep.kind = "remove2" /\ ep.failed \notin members
+           /\ \E r \in VacateOutcomes(WAfter(w, ep.failed), ep.at, ep.failed2, ps) :
+                 /\ ps' = r.ps /\ acts' = acts \o Tag(r.log, ep.at)
+           /\ members' = members \ {ep.failed2} /\ pending' = {}
+           /\ UNCHANGED <<w, ep, ps0, stage, mid>>
+Deliver == /\ stage = "run" /\ pending # {} /\ ep.kind # "remove2"
            /\ \E p \in pending :
                 \E r \in CASE ep.kind = "fail"   -> AlertOutcomes(w, members, p, ep.failed, "ping", ps)
                            [] ep.kind = "noise"  -> AlertOutcomes(w, members, p, ep.failed, "freespace", ps)
@@ -72,11 +92,13 @@ Deliver == /\ stage = "run" /\ pending # {}
                    /\ acts' = acts \o Tag(r.log, p)
                    /\ pending' = pending \ {p}
                    /\ members' = IF ep.kind = "remove" THEN members \ {ep.failed} ELSE members
-           /\ UNCHANGED <<w, ep, ps0, stage>>
-Next == Setup \/ Deliver
-Spec == Init /\ [][Next]_<<w, ep, ps0, ps, members, acts, pending, stage>>
+           /\ UNCHANGED <<w, ep, ps0, stage, mid>>
+Next == Setup \/ Deliver \/ First2 \/ Second2
+Spec == Init /\ [][Next]_<<w, ep, ps0, ps, members, acts, pending, stage, mid>>
 
 Done == stage = "run" /\ pending = {}
 PropertyHolds == Done => IF ep.kind = "sync" THEN ExpiryEpisodeOK(w, ps0, acts, ps)
+                         ELSE IF ep.kind = "remove2"
+                              THEN Remove2EpisodeOK(w, ep, ps0, SubSeq(acts, 1, mid.n), mid.ps, SubSeq(acts, mid.n + 1, Len(acts)), ps)
                          ELSE RehomeEpisodeOK(w, ep, ps0, acts, ps)
 =============================================================================
